@@ -31,6 +31,39 @@ import (
 // FuncKey is the table key of a function declaration.
 func FuncKey(obj *types.Func) string { return obj.FullName() }
 
+// FuncSigs maps the key of every function declaration of the module packages to its signature, written without
+// parameter names (tests excluded).
+func FuncSigs(pkgs []*packages.Package) map[string]string {
+	out := map[string]string{}
+	for _, pk := range pkgs {
+		if !strings.HasPrefix(pk.PkgPath, Module) {
+			continue
+		}
+		for _, f := range pk.Syntax {
+			for _, d := range f.Decls {
+				if fd, ok := d.(*ast.FuncDecl); ok {
+					if obj, ok := pk.TypesInfo.Defs[fd.Name].(*types.Func); ok {
+						sig := obj.Type().(*types.Signature)
+						var ps, rs []string
+						for i := 0; i < sig.Params().Len(); i++ {
+							ps = append(ps, types.TypeString(sig.Params().At(i).Type(), nil))
+						}
+						for i := 0; i < sig.Results().Len(); i++ {
+							rs = append(rs, types.TypeString(sig.Results().At(i).Type(), nil))
+						}
+						v := ""
+						if sig.Variadic() {
+							v = "..."
+						}
+						out[FuncKey(obj)] = "(" + strings.Join(ps, ",") + v + ")(" + strings.Join(rs, ",") + ")"
+					}
+				}
+			}
+		}
+	}
+	return out
+}
+
 // KnownFuncs lists the keys of all function declarations of the module packages (tests excluded).
 func KnownFuncs(pkgs []*packages.Package) []string {
 	var out []string
